@@ -5,6 +5,7 @@ package main
 // crafted From strings.  The raw store under "Notification/" is read key by key (both record kinds).
 
 import (
+	"encoding/json"
 	"fmt"
 	"math/rand"
 	"strconv"
@@ -140,7 +141,7 @@ func runNotif(seed int64, histories, steps int, out *Emitter) {
 					break
 				}
 				post := c.notifAbs()
-				out.Emit(map[string]interface{}{"mod": "notif", "hist": hi, "i": i, "h": c.H, "now": c.T.UnixMicro(), "pre": pre, "op": "restart", "ok": true, "post": post,
+				out.Emit(map[string]interface{}{"mod": "notif", "hist": hi, "i": i, "h": c.H, "now": c.T.UnixMicro(), "pre": pre, "op": "restart", "ok": true, "post": post, "genesis": c.notifGenesisJ(),
 					"inboxes": c.inboxesJ(actors), "all": c.allNotifsJ(), "actors": actors})
 				out.Count("notif.restart", true)
 			}
@@ -244,4 +245,24 @@ func runNotif(seed int64, histories, steps int, out *Emitter) {
 		}
 		c.Close()
 	}
+}
+
+// notifGenesisJ decodes the notifications part of the last exported application state in the exported order.
+func (c *Chain) notifGenesisJ() interface{} {
+	var app map[string]json.RawMessage
+	if json.Unmarshal(c.LastExport, &app) != nil {
+		return nil
+	}
+	var gs notiftypes.GenesisState
+	if err := c.A.AppCodec().UnmarshalJSON(app[notiftypes.ModuleName], &gs); err != nil {
+		return map[string]interface{}{"error": err.Error()}
+	}
+	ns, bs := []interface{}{}, []interface{}{}
+	for _, n := range gs.Notifications {
+		ns = append(ns, notifJ(n))
+	}
+	for _, b := range gs.Blocks {
+		bs = append(bs, map[string]interface{}{"address": b.Address, "blockedAddress": b.BlockedAddress})
+	}
+	return map[string]interface{}{"notifications": ns, "blocks": bs}
 }
